@@ -171,6 +171,12 @@ Drift ==
       LET hm == Mat(H) IN
       (L2App(hm) /\ ~Agrees(hm, snt1(hm), dl1(hm))) => PrintT(<<"L2", "drift", H.scen, l>>)
 
+\* S01 (extra, not a listed property): HTTP status mapping of the server; a failure is reported as drift
+S01App(h) == h.out.set /\ h.par.entry = "run" /\ h.par.via = "http" /\ h.par.expect_status # 0
+S01Holds(h) == /\ h.out.status = h.par.expect_status
+               /\ (h.out.status = 200 /\ h.par.http_method # "HEAD" => h.out.ctype = "application/json")
+DriftS01 == (H.out.set /\ Wants("L2") /\ S01App(H) /\ ~S01Holds(H)) => PrintT(<<"L2", "drift", H.scen, l>>)
+
 \* acceptance: the whole trace was consumed
 Consumed == TLCGet("level") - 1 = Len(Trace) \/ TRUE
 TraceAccepted == TLCGet("stats").diameter - 1 = Len(Trace)
